@@ -84,7 +84,7 @@ def _fit_fn(fam):
     if fam == 'watson':
         return lambda y, s: d.ComplexWatsonTrainer(**WATSON_KW).fit(y, saliency=s)
     if fam == 'cacg':
-        return lambda y, s: d.ComplexAngularCentralGaussianTrainer().fit(y, iterations=4, **CACG_KW)
+        return lambda y, s: d.ComplexAngularCentralGaussianTrainer().fit(y, **CACG_KW)
     if fam == 'bingham':
         return lambda y, s: ComplexBinghamTrainer(max_concentration=500).fit(y, saliency=s)
 
@@ -97,12 +97,18 @@ def run_dist(case, R):
         y = np.einsum('...ab,...nb->...na', np.linalg.cholesky(gen.hpd(rng, D, cond=10.0, lead=lead, real=True)), rng.standard_normal((*lead, N, D)))
         y = y + rng.standard_normal((*lead, 1, D)) * 2
     else:
-        y = np.einsum('...ab,...nb->...na', np.linalg.cholesky(gen.hpd(rng, D, cond=10.0, lead=lead)), gen.cnormal(rng, (*lead, N, D)))
+        # slices of different anisotropy (condition 1 .. 1e3 per slice): iterative trainers converge at different speeds in them
+        cond = 10.0 ** rng.uniform(0, 3, size=lead) if (lead and fam in ('cacg', 'bingham') and rng.uniform() < 0.6) else np.full(lead, 10.0)
+        C = np.empty((*lead, D, D), dtype=complex)
+        for idx in np.ndindex(*lead):
+            C[idx] = gen.hpd(rng, D, cond=float(cond[idx]))
+        y = np.einsum('...ab,...nb->...na', np.linalg.cholesky(C), gen.cnormal(rng, (*lead, N, D)))
     sal = rng.uniform(0.1, 1.0, size=(*lead, N)) if (case['saliency'] and fam != 'cacg') else None
     x = (rng.standard_normal((*lead, 5, D)) if real else gen.cnormal(rng, (*lead, 5, D)))
     CACG_KW.clear()
     if fam == 'cacg':
-        CACG_KW.update(covariance_norm=[None, 'eigenvalue', 'trace', False][int(rng.integers(1, 4))], eigenvalue_floor=float(rng.choice([1e-10, 0.05, 0.2])))
+        CACG_KW.update(covariance_norm=[None, 'eigenvalue', 'trace', False][int(rng.integers(1, 4))], eigenvalue_floor=float(rng.choice([1e-10, 0.05, 0.2])),
+                       iterations=int(rng.choice([1, 4, 4, 10, 30, 100])))
         y = y * 10 ** rng.uniform(-2, 2, size=(*lead, 1, 1))           # slices with different spectra / scales
     WATSON_KW.clear()
     if fam == 'watson':
@@ -114,7 +120,7 @@ def run_dist(case, R):
     if lay != 'c':
         dd = dict(y=y); scen.relayout(dd, lay); y = dd['y']
     fit = _fit_fn(fam)
-    rtol = 1e-5 if fam == 'bingham' else 1e-10
+    rtol = 1e-8 if fam == 'bingham' else 1e-10
     # per slice -------------------------------------------------------------------------------------------------
     slices = {}
     for idx in np.ndindex(*lead):
